@@ -75,6 +75,36 @@ impl Sub {
       self.violations.push(Violation { signature, detail, witness });
     }
   }
+  /// Fold another sub-result (e.g. one harness explored on its own thread) into this one.
+  pub fn absorb(&mut self, o: Sub) {
+    self.evaluations += o.evaluations;
+    self.states += o.states;
+    self.transitions += o.transitions;
+    self.nontrivial += o.nontrivial;
+    self.distinct_outcomes += o.distinct_outcomes;
+    self.exhaustive &= o.exhaustive;
+    self.caps_hit.extend(o.caps_hit);
+    self.notes.extend(o.notes);
+    for s in o.samples {
+      self.sample(s);
+    }
+    if let (Value::Object(a), Value::Object(b)) = (&mut self.bounds, o.bounds) {
+      for (k, v) in b {
+        a.insert(k, v);
+      }
+    }
+    // signatures carry the harness name already; re-prefix with this sub's name
+    for v in o.violations {
+      let sig = match v.signature.split_once('/') {
+        Some((_, rest)) => format!("{}/{}", self.name, rest),
+        None => v.signature.clone(),
+      };
+      if !self.violations.iter().any(|x| x.signature == sig) {
+        self.violations.push(Violation { signature: sig, detail: v.detail, witness: v.witness });
+      }
+    }
+  }
+
   pub fn merge_violations(&mut self, vs: Vec<Violation>) {
     for v in vs {
       if !self.violations.iter().any(|x| x.signature == v.signature) {
